@@ -356,16 +356,20 @@ class Gen:
         optional = set()
         loopvars = {}
         etas = []
+        hoist = {}
         for bl in block:
             t = bl.strip()
             if t.startswith('//@'):
                 dd = t[3:].strip()
-                m = re.match(r'closure(\??)\s+(\d+)\s*:\s*(.*)$', dd)
+                m = re.match(r'closure(\??)\s+(\d+)\s*(?:as\s+\w+\s*)?:\s*(.*)$', dd)
                 if m:
                     if m.group(1):
                         optional.add(int(m.group(2)))
                     m = re.match(r'closure\??\s+()(\d+)\s*:\s*(.*)$', dd)
-                    m = re.match(r'(\d+)\s*:\s*(.*)$', dd.split(None, 1)[1])
+                    m = re.match(r'(\d+)\s*(?:as\s+(\w+)\s*)?:\s*(.*)$', dd.split(None, 1)[1])
+                    if m.group(2):
+                        hoist[int(m.group(1))] = m.group(2)
+                    m = re.match(r'(\d+)\s*(?:as\s+\w+\s*)?:\s*(.*)$', dd.split(None, 1)[1])
                     closures[int(m.group(1))] = m.group(2); last, lastk = 'closure', int(m.group(1)); continue
                 m = re.match(r'loop\s+(\d+)\s*(?:\[(\w+)\])?\s*:\s*(.*)$', dd)
                 if m:
@@ -373,7 +377,7 @@ class Gen:
                     if m.group(2):
                         loopvars[int(m.group(1))] = m.group(2)
                     continue
-                m = re.match(r'ghost\s+(start)()\s*:\s*(.*)$', dd) or re.match(r'ghost\??\s+(before|after)\s+"(.*?)"\s*:\s*(.*)$', dd)
+                m = re.match(r'ghost\s+(start|end)()\s*:\s*(.*)$', dd) or re.match(r'ghost\??\s+(before|after)\s+"(.*?)"\s*:\s*(.*)$', dd)
                 if m:
                     ghosts.append((m.group(1), m.group(2), m.group(3), dd.startswith('ghost?'))); last, lastk = 'ghost', 0; continue
                 m = re.match(r'subst\s+"(.*)"\s*=>\s*"(.*)"(?:\s+(R\d))?$', dd)
@@ -422,6 +426,28 @@ class Gen:
                         continue
                     raise Undecided('lost anchor: closure %d of fn %s (found %d)' % (k, label, len(cl)))
                 a, b = cl[k - 1]
+                if k in hoist:
+                    # R2h: the closure is let-bound at the start of the body under a fresh name (it may only
+                    # mention parameters), so ghost code can refer to it; the call site gets the name.
+                    e = b
+                    while bmask[e].isspace():
+                        e += 1
+                    q = e
+                    if bmask[e] == '{':
+                        q = L.match_close(bmask, e) + 1
+                    else:
+                        while q < len(bmask):
+                            if bmask[q] in '([{':
+                                q = L.match_close(bmask, q)
+                            elif bmask[q] in ',)]};':
+                                break
+                            q += 1
+                    body_txt = btxt[e:q].strip()
+                    if not body_txt.startswith('{'):
+                        body_txt = '{ ' + body_txt + ' }'
+                    edits.append((1, 1, ' let %s = %s %s; ' % (hoist[k], rep, body_txt), 'R2'))
+                    edits.append((a, q, hoist[k], 'R2'))
+                    continue
                 edits.append((a, b, rep, 'R2'))
                 if re.search(r'\b(ensures|requires)\b|->', rep):
                     # a closure with a contract needs a block body: brace the body expression
@@ -456,6 +482,9 @@ class Gen:
         for where, anchor, text, opt in ghosts:
             if where == 'start':
                 edits.append((1, 1, ' ' + text + ' ', 'G'))
+                continue
+            if where == 'end':
+                edits.append((len(btxt) - 1, len(btxt) - 1, ' ' + text + ' ', 'G'))
                 continue
             cnt = btxt.count(anchor)
             if cnt == 0 and opt:
@@ -502,7 +531,7 @@ class Gen:
                 rep = ('|x_eta| -> (r_eta: _) requires call_requires(%s, (x_eta,)) ensures call_ensures(%s, (x_eta,), r_eta) { %s(x_eta) }'
                        % (path, path, path))
             edits.append((a, b, rep, 'R1'))
-        edits.sort(key=lambda e: (e[0], e[1]))
+        edits = [e for _, e in sorted(enumerate(edits), key=lambda t: (t[1][0], t[1][1], t[0]))]
         for e1, e2 in zip(edits, edits[1:]):
             if e2[0] < e1[1]:
                 raise Undecided('unsupported construct: overlapping rewrites in fn %s' % label)
